@@ -129,6 +129,15 @@ CHECKS["C15"] = dict(
    note="Partial: the backends' dispatch code (60+ unreachable!/panic! sites) is not modelled; absence of panics is only observed on the witnesses, and "
         "uniformity within a shape class is assumed. Trusted: Coq kernel, Gate transcription, CLI runner.",
    design="§5 C15")
+CHECKS["C07"] = dict(
+   text="Proof + declaration comparison: C07_dart_prims (every primitive's dart:ffi type has exactly the Rust primitive's width, signedness and float kind) "
+        "and C07_kotlin_prims (JNA parameter/return and struct-field types have its width and kind), re-checked against tables regenerated from the Dart "
+        "and Kotlin formatters on every run. For generated bridges inside each backend's profile, every native function declaration and struct mirror is "
+        "parsed (with its result/option/slice/struct classes) into representation classes and compared in Coq with what the macro compiles (Abi/Model.v), "
+        "field order included; parameter counts are compared with the C header.",
+   note="No Dart/Kotlin toolchain exists in the sandbox: declarations are compared as declarations, nothing is executed. Trusted: Coq kernel+vm_compute, "
+        "Abi/Model.v transcription, the meaning tables of dart:ffi/JNA names, python parsers, gen/tablegen.py.",
+   design="§5 C07")
 NOT_YET = {
 }
 ALL = [f"C{i:02d}" for i in range(1, 18)]
